@@ -576,20 +576,56 @@ func runC15(c *Ctx) {
 		twins = append(twins, anm.AnonFuncs...)
 		for _, fn := range twins {
 			c.touch(fn)
+			top := fn
+			for top.Parent() != nil {
+				top = top.Parent()
+			}
 			// blocks loading each error value
+			// helperSite: for a block inside an unexported helper the reader calls (and whose result it uses), the call
+			helperSite := map[*ssa.BasicBlock]*ssa.Call{}
 			find := func(g *types.Var) []*ssa.BasicBlock {
 				var out []*ssa.BasicBlock
 				eachInstr(fn, func(in ssa.Instruction) {
 					if v, ok := in.(ssa.Value); ok && isLoadOfGlobal(v, g) {
 						out = append(out, in.Block())
 					}
+					call, ok := in.(*ssa.Call)
+					if !ok || call.Referrers() == nil || len(*call.Referrers()) == 0 {
+						return
+					}
+					if h := call.Call.StaticCallee(); isHelperOf(top, h) {
+						eachInstr(h, func(hin ssa.Instruction) {
+							if v, ok := hin.(ssa.Value); ok && isLoadOfGlobal(v, g) {
+								out = append(out, hin.Block())
+								helperSite[hin.Block()] = call
+							}
+						})
+					}
 				})
 				return out
 			}
-			flagOf := func(l Lit) (bool, bool) {
+			var flagOf func(l Lit, blk *ssa.BasicBlock) (bool, bool)
+			flagOf = func(l Lit, blk *ssa.BasicBlock) (bool, bool) {
 				// a literal on a plain boolean variable (parameter, phi, or load of a captured cell): the continuation flag
 				switch x := l.Cond.(type) {
 				case *ssa.Parameter:
+					// inside a helper: the flag is what the reader passes for this parameter (possibly negated)
+					if call := helperSite[blk]; call != nil {
+						for i, prm := range x.Parent().Params {
+							if prm == x && i < len(call.Call.Args) {
+								arg, pos := strip(call.Call.Args[i]), l.Pos
+								for {
+									u, ok := arg.(*ssa.UnOp)
+									if !ok || u.Op != token.NOT {
+										break
+									}
+									arg, pos = strip(u.X), !pos
+								}
+								return flagOf(Lit{Cond: arg, Pos: pos}, nil)
+							}
+						}
+						return false, false
+					}
 					return l.Pos, true
 				case *ssa.Phi:
 					return l.Pos, true
@@ -612,7 +648,7 @@ func runC15(c *Ctx) {
 						if _, pos, ok := callLit(l, isCont); ok && pos == wantCont {
 							contOK = true
 						}
-						if v, ok := flagOf(l); ok && v == wantFlag {
+						if v, ok := flagOf(l, b); ok && v == wantFlag {
 							flagOK = true
 						}
 					}
